@@ -14,7 +14,16 @@ from props import c02
 
 ID = "C29"
 LEAN_TARGETS = ["TornadoModel.C29.Props"]
-THEOREMS = ["TornadoModel.C29.stub"]
+THEOREMS = [
+    "TornadoModel.C29.compress_only_if",
+    "TornadoModel.C29.not_compressed_passthrough",
+    "TornadoModel.C29.vary_always",
+    "TornadoModel.C29.cl_equals_encoded_length",
+    "TornadoModel.C29.cl_dropped_when_streaming",
+    "TornadoModel.C29.decoded_equals_written",
+    "TornadoModel.C29.identity_when_not_compressing",
+    "TornadoModel.C29.transformFirst_shape",
+]
 TRUSTED = [
     "zlib / gzip.GzipFile: abstract writer with contract gunzip(outputs.join) = inputs.join (checked per case with real zlib, assumed in the theorems)",
     "Spec.clientParse of C02 as the client's framing layer",
@@ -28,7 +37,15 @@ RULE = ("C02-style programs with chunk sizes around MIN_LENGTH=1024, Content-Typ
         "others, Vary and Content-Encoding set by the handler, Accept-Encoding in {absent, gzip, gzip;q=0, identity, GZIP, ...}; "
         "non-trivial = the response was actually compressed and carried data; distinct by canonical JSON")
 EXHAUSTIVE = {"quick": False, "thorough": False}
-CLAUSES = {}
+CLAUSES = {
+    "a client that decodes the body according to Content-Encoding obtains exactly the bytes written":
+        "decoded_equals_written + identity_when_not_compressing (transform level, under the gzip contract); "
+        "tie only: that the chunks fed to the transform are the handler's writes and its outputs are what the connection frames "
+        "(run-level; checked by the oracle with real zlib on every case)",
+    "compression only for compressible types and only when Accept-Encoding mentions gzip": "compress_only_if + not_compressed_passthrough",
+    "Vary always includes Accept-Encoding": "vary_always (every path through transform_first_chunk); tie only: it is called on every first flush incl. error pages",
+    "a Content-Length, when present, equals the encoded body length": "cl_equals_encoded_length + cl_dropped_when_streaming; wire level: C02 framing oracle",
+}
 PARALLEL = False   # 1-2 ms per case; forking a pool costs more than it saves
 CASE_TIMEOUT = 20
 
